@@ -417,7 +417,40 @@ func modHeapName(e *Expr) (string, bool) {
 	return "", false
 }
 
+// mapHeapsOf resolves mapof(e) to the heaps of e's map type.
+func (vc *FuncVC) mapHeapsOf(env *SpecEnv, m *Expr) ([]string, bool) {
+	if m.Op != "call" || m.Name != "mapof" || len(m.Args) != 1 {
+		return nil, false
+	}
+	sv, err := env.Value(m.Args[0])
+	if err != nil {
+		vc.errs = append(vc.errs, fmt.Sprintf("modifies %s: %v", m.String(), err))
+		return nil, true
+	}
+	mt, ok := sv.T.Underlying().(*types.Map)
+	if !ok {
+		vc.errs = append(vc.errs, fmt.Sprintf("modifies %s: not a map", m.String()))
+		return nil, true
+	}
+	hn, vt := mapHeaps(mt)
+	out := []string{hn + "#has"}
+	if _, isSlice := vt.Underlying().(*types.Slice); isSlice {
+		out = append(out, hn+"#ptr", hn+"#len", hn+"#cap")
+	} else {
+		out = append(out, hn+"#val")
+	}
+	return out, true
+}
+
 func (vc *FuncVC) havocItem(st *State, env *SpecEnv, m *Expr, who string) {
+	if hs, ok := vc.mapHeapsOf(env, m); ok {
+		for _, h := range hs {
+			if _, known := st.g.heapSort[h]; known {
+				st.havocHeap(h)
+			}
+		}
+		return
+	}
 	if hn, ok := modHeapName(m); ok {
 		for _, h := range vc.heapsOfName(env.pkg, hn) {
 			if _, known := st.g.heapSort[h]; known {
